@@ -2,7 +2,23 @@ import WrglModel.Model.Diff
 import WrglModel.Spec.Diff
 import WrglModel.Spec.DiffWF
 import WrglModel.Lemmas.Search
+import WrglModel.Lemmas.Order
+import WrglModel.Lemmas.DiffGet
+import WrglModel.Lemmas.DiffWindow
+import WrglModel.Lemmas.DiffTable
+import WrglModel.Lemmas.DiffIterate
+import WrglModel.Lemmas.DiffVerdict
 namespace Wrgl
+
+/-- distinct keys have distinct key hashes within a sound table -/
+theorem pkSum_pairwise_ne {bs arity : Nat} {t : ATable} (h : t.WF bs arity)
+    (hk : ∀ a ∈ t.allRows, ∀ b ∈ t.allRows, (a.pkSum = b.pkSum ↔ a.key = b.key)) :
+    t.allRows.Pairwise (fun a b => a.pkSum ≠ b.pkSum) := by
+  refine List.Pairwise.imp_of_mem ?_ h.ascending
+  intro a b ha hb hlt hp
+  have hkey := (hk a ha b hb).mp hp
+  rw [hkey] at hlt
+  exact keyCmp_lt_irrefl _ hlt
 
 /-- Main theorem of C04: on structurally sound tables of the same key arity whose hashes identify
     keys and rows, `diffRows` (with the empty-table guard) never panics or errors, and its event
@@ -10,6 +26,24 @@ namespace Wrgl
 theorem diffRows_exact (bs arity : Nat) (hbs : 0 < bs) (harity : 0 < arity) (t1 t2 : ATable)
     (h1 : t1.WF bs arity) (h2 : t2.WF bs arity) (hk : HashInj t1 t2) (hr : RowHashInj t1 t2) :
     ∃ evs, diffRows true bs t1.toD t2.toD = .ok evs ∧ diffVerdict t1.allRows t2.allRows evs = [] := by
-  sorry
+  have _ := harity  -- not needed: the arity only has to agree between the two tables
+  have hk12 : ∀ a ∈ t1.allRows, ∀ b ∈ t2.allRows, (a.pkSum = b.pkSum ↔ a.key = b.key) :=
+    fun a ha b hb => hk a (List.mem_append_left _ ha) b (List.mem_append_right _ hb)
+  have hk21 : ∀ a ∈ t2.allRows, ∀ b ∈ t1.allRows, (a.pkSum = b.pkSum ↔ a.key = b.key) :=
+    fun a ha b hb => hk a (List.mem_append_right _ ha) b (List.mem_append_left _ hb)
+  have hk11 : ∀ a ∈ t1.allRows, ∀ b ∈ t1.allRows, (a.pkSum = b.pkSum ↔ a.key = b.key) :=
+    fun a ha b hb => hk a (List.mem_append_left _ ha) b (List.mem_append_left _ hb)
+  have hk22 : ∀ a ∈ t2.allRows, ∀ b ∈ t2.allRows, (a.pkSum = b.pkSum ↔ a.key = b.key) :=
+    fun a ha b hb => hk a (List.mem_append_right _ ha) b (List.mem_append_right _ hb)
+  have hr12 : ∀ a ∈ t1.allRows, ∀ b ∈ t2.allRows, (a.rowSum = b.rowSum ↔ a.cells = b.cells) :=
+    fun a ha b hb => hr a (List.mem_append_left _ ha) b (List.mem_append_right _ hb)
+  have s12 := iterateAndMatch_spec h1 h2 hk12 hk22
+  have s21 := iterateAndMatch_spec h2 h1 hk21 hk11
+  refine ⟨_, diffRows_of_specs bs t1 t2 s12 s21, ?_⟩
+  exact verdict_events t1.allRows t2.allRows
+    (fun x hx y hy e => h2.key_unique hx hy e)
+    (fun x hx y hy e => h1.off_unique hbs hx hy e)
+    (fun x hx y hy e => h2.off_unique hbs hx hy e)
+    (pkSum_pairwise_ne h1 hk11) (pkSum_pairwise_ne h2 hk22) hk12 hr12
 
 end Wrgl
